@@ -423,6 +423,18 @@ pub fn gen_mutants<C: Crypto>(crypto: &C, rng: &mut Rng, kr: &Keyring, o: &Orig,
                     push("reflect/verbatim-as-sent-by-receiver".into(), m, 3042, true);
                 }
             }
+            // right key and the nonce of the session's real peer, but the header names ANOTHER
+            // source node (the header is authenticated as written): a message claiming a sender
+            // identity other than the one the session was established with
+            for (n, other) in [S2_NODE, OTHER_NODE, s.local_node].into_iter().enumerate() {
+                if other != s.peer_node {
+                    let mut hp3 = o.hp.clone();
+                    hp3.src = Some(other);
+                    if let Some(m) = enc(&hp3, &s.rx_key, s.peer_node) {
+                        push("identity/header-names-another-source-node".into(), m, 3055 + n as u32, true);
+                    }
+                }
+            }
             // right key, nonce built from another source node id
             for (n, other) in [S2_NODE, OTHER_NODE, 0u64, s.local_node].into_iter().enumerate() {
                 if other != s.peer_node {
